@@ -13,6 +13,7 @@ import (
 	"strings"
 
 	"github.com/youchainhq/go-youchain/common"
+	"github.com/youchainhq/go-youchain/core/state"
 	"github.com/youchainhq/go-youchain/crypto"
 	"github.com/youchainhq/go-youchain/params"
 
@@ -26,14 +27,15 @@ type valKey struct {
 }
 
 type gen struct {
-	r     *vh.RNG
-	accts []common.Address
-	vals  []valKey
-	slots []common.Hash
-	txs   []common.Hash
-	dlgrs []common.Address // delegators: several of them end up on one validator, in any arrival order
-	weird bool // malformed / boundary value stream
-	tiny  bool // aliasing stream: very few keys, so that both sides of a copy write the SAME records / slots / lists
+	r                *vh.RNG
+	accts            []common.Address
+	vals             []valKey
+	slots            []common.Hash
+	txs              []common.Hash
+	dlgrs            []common.Address // delegators: several of them end up on one validator, in any arrival order
+	weird            bool             // malformed / boundary value stream
+	tiny             bool             // aliasing stream: very few keys, so that both sides of a copy write the SAME records / slots / lists
+	lastSU, credited *common.Address  // F-C10d pattern: credit a self-destructed account, later re-create it
 }
 
 func newGen(r *vh.RNG, weird, tiny bool) *gen {
@@ -91,7 +93,7 @@ func (g *gen) dlgr() common.Address {
 	}
 	return g.dlgrs[g.r.Intn(len(g.dlgrs))]
 }
-func (g *gen) val() valKey          { return g.vals[g.r.Intn(len(g.vals))] }
+func (g *gen) val() valKey { return g.vals[g.r.Intn(len(g.vals))] }
 
 var you = new(big.Int).Exp(big.NewInt(10), big.NewInt(18), nil)
 
@@ -159,6 +161,13 @@ func (g *gen) flag() string {
 func (g *gen) candidate(e *env) string {
 	r := g.r
 	st := e.st
+	if a := g.lastSU; a != nil {
+		g.lastSU = nil
+		if r.Chance(30) && st.HasSuicided(*a) {
+			g.credited = a
+			return fmt.Sprintf("AB %s %d", hx(a[:]), 1+r.Intn(50))
+		}
+	}
 	w := []int{8, 8, 5, 5, 5, 10, 3, 3, 5, 6, 8, 10, 4, 4, 3, 6, 4, 1, 2, 3, 7, 5, 4, 5, 3}
 	if g.tiny {
 		// mostly records whose copies hold slices: staking records (tx hash lists), validators (delegation lists),
@@ -199,8 +208,13 @@ func (g *gen) candidate(e *env) string {
 	case 5:
 		return fmt.Sprintf("SS %s %s %s", hx(g.acct().Bytes()), hx(g.slots[r.Intn(len(g.slots))].Bytes()), hx(g.word().Bytes()))
 	case 6:
-		return "SU " + hx(g.acct().Bytes())
+		a := g.acct()
+		g.lastSU = &a
+		return "SU " + hx(a[:])
 	case 7:
+		if a := g.credited; a != nil && r.Chance(50) {
+			return "CA " + hx(a[:])
+		}
 		return "CA " + hx(g.acct().Bytes())
 	case 8:
 		// direct delegation-list edit
@@ -565,7 +579,15 @@ func firstLines(s string, n int) string {
 	return strings.Join(l, "\n")
 }
 
-func report(c *vh.Ctx, drv *vh.Driver, name string, lines []string, fl failure) {
+var knownSeen = map[string]bool{}
+
+// report shrinks and records one failure; it returns true when the failure counts as new (not an already
+// reported occurrence of a known finding).
+func report(c *vh.Ctx, drv *vh.Driver, name string, lines []string, fl failure) bool {
+	if m := matcher(lines, fl.what); m != "" && knownSeen[m] {
+		c.Res.Dist("known-finding-" + m + "-again")
+		return false
+	}
 	// shrink: same failure kind must persist
 	fails := func(ls []string) bool {
 		cr := runLines(drv, ls)
@@ -589,12 +611,170 @@ func report(c *vh.Ctx, drv *vh.Driver, name string, lines []string, fl failure) 
 		}
 	}
 	rp := vh.WriteReplay(c.ReplayDir, "C10", name, c.Seed, append([]string{fl.kind + ": " + strings.ReplaceAll(firstLines(what, 6), "\n", " // ")}, "kind "+fl.kind), shr)
-	c.Res.Fail(fl.kind, matcher(shr, what), firstLines(what, 8), rp)
+	m := matcher(shr, what)
+	c.Res.Fail(fl.kind, m, firstLines(what, 8), rp)
+	if m != "" {
+		knownSeen[m] = true
+		return false
+	}
+	return true
 }
 
-// matcher names the known finding a shrunk failing input belongs to ("" = none). No finding of C10 is open:
-// both defects met (F-C10a, F-C10b) were repaired in /repo and their witnesses live in corpus/C10.
-func matcher(lines []string, what string) string { return "" }
+// matcher names the known finding a shrunk failing input belongs to ("" = none).
+//
+// F-C10d "resurrected-balance": the shrunk sequence contains Suicide(a), then in the same transaction a balance credit
+// to a, then a transaction boundary, then a later CreateAccount(a) -- AND the two enumerations the failure shows differ in
+// nothing but a's balance, by exactly the credited amount. Anything else is not suppressed.
+func matcher(lines []string, what string) string {
+	if resurrectedBalance(lines, what) {
+		return "resurrected-balance"
+	}
+	return ""
+}
+
+func resurrectedBalance(lines []string, what string) bool {
+	// the two enumerations
+	var obs []string
+	for _, l := range strings.Split(what, "\n") {
+		if i := strings.Index(l, "=A "); i >= 0 {
+			obs = append(obs, l[i+1:])
+		} else if i := strings.Index(l, "=A"); i >= 0 && strings.Contains(l, " | V ") {
+			obs = append(obs, l[i+1:])
+		}
+	}
+	if len(obs) != 2 {
+		return false
+	}
+	sa, sb := strings.Split(obs[0], " | "), strings.Split(obs[1], " | ")
+	if len(sa) != len(sb) || len(sa) < 2 {
+		return false
+	}
+	for i := 1; i < len(sa); i++ {
+		if sa[i] != sb[i] {
+			return false
+		}
+	}
+	accts := func(s string) map[string][]string {
+		m := map[string][]string{}
+		s = strings.TrimPrefix(s, "A")
+		for _, e := range strings.Split(strings.TrimSpace(s), ";") {
+			if f := strings.Split(e, ":"); len(f) == 7 {
+				m[f[0]] = f
+			}
+		}
+		return m
+	}
+	ma, mb := accts(sa[0]), accts(sb[0])
+	if len(ma) != len(mb) {
+		return false
+	}
+	addr, diff := "", new(big.Int)
+	for k, fa := range ma {
+		fb, ok := mb[k]
+		if !ok {
+			return false
+		}
+		for i := range fa {
+			if fa[i] == fb[i] {
+				continue
+			}
+			if i != 2 || addr != "" {
+				return false // another field, or a second address
+			}
+			x, ok1 := new(big.Int).SetString(fa[2], 10)
+			y, ok2 := new(big.Int).SetString(fb[2], 10)
+			if !ok1 || !ok2 {
+				return false
+			}
+			addr, diff = k, new(big.Int).Abs(new(big.Int).Sub(x, y))
+		}
+	}
+	if addr == "" {
+		return false
+	}
+	// the pattern: SU a; credits to a (same transaction); boundary; ... CA a
+	for i, l := range lines {
+		_, l = side(l)
+		if l != "SU "+addr {
+			continue
+		}
+		res, boundary, j := new(big.Int), false, i+1
+		for ; j < len(lines); j++ {
+			_, x := side(lines[j])
+			f := strings.Fields(x)
+			if f[0] == "FIN" || f[0] == "IR" || f[0] == "CM" || f[0] == "RO" {
+				boundary = true
+				break
+			}
+			if len(f) == 3 && f[1] == addr {
+				n, ok := new(big.Int).SetString(f[2], 10)
+				if !ok {
+					continue
+				}
+				switch f[0] {
+				case "SB":
+					res.Set(n)
+				case "AB":
+					res.Add(res, n)
+				case "UB":
+					res.Sub(res, n)
+				}
+			}
+			if f[0] == "SU" && f[1] == addr {
+				res.SetInt64(0)
+			}
+		}
+		if !boundary || res.Sign() <= 0 || res.Cmp(diff) != 0 {
+			continue
+		}
+		for k := j + 1; k < len(lines); k++ {
+			if _, x := side(lines[k]); x == "CA "+addr {
+				return true
+			}
+		}
+	}
+	return false
+}
+
+// probeResurrected: F-C10d on the real code, outside the model: the deleted object of a self-destructed account keeps
+// the balance credited to it in the same transaction; CreateAccount on the live object carries it over, on a copy or a
+// reopened state it cannot.
+func probeResurrected() vh.Probe {
+	pr := vh.Probe{ID: "F-C10d"}
+	if p := guarded(func() {
+		e, err := newEnv(nil)
+		if err != nil {
+			pr.What = err.Error()
+			return
+		}
+		a := common.HexToAddress("0xa100000000000000000000000000000000000001")
+		st := e.st
+		st.SetBalance(a, big.NewInt(5))
+		st.Finalise(true)
+		st.Suicide(a)
+		st.AddBalance(a, big.NewInt(7))
+		r0, r1, r2, err := st.Commit(true)
+		if err != nil {
+			pr.What = err.Error()
+			return
+		}
+		cp := st.Copy()
+		re, err := state.New(r0, r1, r2, e.db)
+		if err != nil {
+			pr.What = err.Error()
+			return
+		}
+		st.CreateAccount(a)
+		cp.CreateAccount(a)
+		re.CreateAccount(a)
+		l, c, r := st.GetBalance(a), cp.GetBalance(a), re.GetBalance(a)
+		pr.Reproduced = l.Cmp(big.NewInt(7)) == 0 && c.Sign() == 0 && r.Sign() == 0
+		pr.What = fmt.Sprintf("Suicide(a); AddBalance(a,7); Commit; CreateAccount(a): balance live=%s copy=%s reopened=%s", l, c, r)
+	}); p != nil {
+		pr.What = fmt.Sprint("panic: ", p)
+	}
+	return pr
+}
 
 func run(c *vh.Ctx) error {
 	quiet.Silence()
@@ -619,10 +799,15 @@ func run(c *vh.Ctx) error {
 		cr := runLines(drv, body)
 		res.Dist("corpus")
 		for _, fl := range cr.fails {
-			res.Fail("corpus", "", "corpus witness fails again: "+f+": "+firstLines(fl.what, 4), f)
+			m := matcher(cr.lines, fl.what)
+			res.Fail("corpus", m, "corpus witness fails again: "+f+": "+firstLines(fl.what, 4), f)
+			if m != "" {
+				knownSeen[m] = true
+			}
 			break
 		}
 	}
+	res.Probes = append(res.Probes, probeResurrected())
 	nCases := c.N(1000, 12000)
 	if c.Search {
 		nCases *= 3
@@ -645,6 +830,7 @@ func run(c *vh.Ctx) error {
 		nontrivial := e.touchedVal && e.touchedA && (e.nRO+e.nCP+e.nCB) >= 2
 		res.Count(strings.Join(cr.lines, "\n"), nontrivial)
 		res.TracesVsImpl += e.nIR + e.nCM + 2*e.nRO + e.nCP + 2*e.nCB
+		res.DistN("copy-then-same-op-compared", e.nShadow)
 		for _, l := range cr.lines {
 			sd, bare := side(l)
 			if sd == "1" {
@@ -667,8 +853,9 @@ func run(c *vh.Ctx) error {
 			res.Sample(map[string]interface{}{"lines": cr.lines, "final_roots": rootsStr(cr.roots), "final_content": firstLines(cr.content, 1)})
 		}
 		if len(cr.fails) > 0 {
-			report(c, drv, fmt.Sprintf("case-%d", ci), cr.lines, cr.fails[0])
-			reported++
+			if report(c, drv, fmt.Sprintf("case-%d", ci), cr.lines, cr.fails[0]) {
+				reported++
+			}
 			continue
 		}
 		// (1) permutation of independent writes, flush points fixed: same content and same roots
@@ -680,8 +867,9 @@ func run(c *vh.Ctx) error {
 			}
 			vr := runLines(vdrv, variant)
 			if len(vr.fails) > 0 {
-				report(c, drv, fmt.Sprintf("case-%d-variant-%d", ci, vi), variant, vr.fails[0])
-				reported++
+				if report(c, drv, fmt.Sprintf("case-%d-variant-%d", ci, vi), variant, vr.fails[0]) {
+					reported++
+				}
 				break
 			}
 			same := vr.content == cr.content
